@@ -48,6 +48,41 @@ def r1_weighted_tensor(ctx):
     fl = ix.func(WT, "WeightedTensor.filled", "C06.R1")
     ok = "self.value.masked_fill(self.weight == 0, fill_value)" in U(fl.node)
     ctx.check(ok, "C06.R1", fl, fl.node, "filled() replaces exactly the zero-weight entries", "filled() no longer replaces exactly the entries of zero weight")
+    # every exit of filled(): the raw values are handed out only when there is nothing to fill (no fill value / no weights); any other exit is
+    # a replacement (masked_fill / where) - a product with the mask is not one (0 * nan = nan, 0 * inf = nan under the mask)
+    REPL = {"self.value.masked_fill(self.weight == 0, fill_value)", "torch.where(self.weight == 0, fill_value, self.value)", "torch.where(self.weight != 0, self.value, fill_value)",
+            "self.value.masked_fill(~self.weight.bool(), fill_value)", "self.value.masked_fill(self.weight.logical_not(), fill_value)"}
+    def _tests_over(ret):
+        out = []
+
+        def go(body, acc):
+            for st in body:
+                if st is ret:
+                    out.extend(acc)
+                if isinstance(st, ast.If):
+                    go(st.body, acc + [U(st.test)])
+                    go(st.orelse, acc + ["not(" + U(st.test) + ")"])
+                elif isinstance(st, (ast.With, ast.For, ast.While, ast.Try)):
+                    go(getattr(st, "body", []), acc)
+        go(fl.node.body, [])
+        return out
+    for r in [n for n in walk_no_nested(fl.node) if isinstance(n, ast.Return) and n.value is not None]:
+        t = U(r.value)
+        if t in REPL:
+            ctx.ok("C06.R1", fl, r, "exit of filled(): masked replacement", construct=f"filled exit: {t}")
+        elif t == "self.value":
+            g = _tests_over(r)
+            ok_g = any(x.startswith("fill_value is None or self.weight is None") or x.startswith("self.weight is None or fill_value is None") for x in g)
+            if not ok_g and any("fill_value" in x or "weight" in x for x in g):
+                ctx.unknown("C06.R1", fl, r, f"filled() hands out the raw values under {g}: not the confirmed test `fill_value is None or self.weight is None`", construct="filled exit: self.value")
+                continue
+            ctx.check(ok_g, "C06.R1", fl, r, "raw values handed out only when there is no fill value or no weights",
+                      f"filled() hands out the unfilled values under {g or 'no condition'}: what lies under the mask reaches the sums", construct="filled exit: self.value")
+        elif any(isinstance(b, ast.BinOp) and isinstance(b.op, ast.Mult) and "weight" in U(b) for b in ast.walk(r.value)):
+            ctx.violation("C06.R1", fl, r, f"filled() returns `{t}`: a product with the mask is not a replacement (0 * nan = nan, 0 * inf = nan): a non-finite "
+                          "value under the mask reaches every sum built on filled(0)", construct=f"filled exit: {t}")
+        else:
+            ctx.unknown("C06.R1", fl, r, f"exit of filled() `{t}` is neither the raw value nor one of the known replacement forms", construct=f"filled exit: {t}")
     sm = ix.func(WT, "WeightedTensor.sum", "C06.R1")
     ok = "self.wsum(fill_value=fill_value, **kws)[0]" in U(sm.node)
     ctx.check(ok, "C06.R1", sm, sm.node, "sum() of a weighted tensor is the weighted sum", "WeightedTensor.sum no longer goes through wsum when weights exist")
@@ -375,6 +410,7 @@ GAU = "src/leaspy/models/obs_models/_gaussian.py"
 VARIANTS = [
     V("mask-is-a-ratio", "src/leaspy/io/data/dataset.py", "        mask = padding_mask * mask_missingvalues\n", "        mask = padding_mask / mask_missingvalues\n", "C06.R7"),
     V("padded-rows-from-one", "src/leaspy/io/data/dataset.py", "            padding_mask[i, 0:nb_vis, :] = 1.0\n", "            padding_mask[i, 1:nb_vis, :] = 1.0\n", "C06.R7"),
+    V("filled-by-product", W, "        return self.value.masked_fill(self.weight == 0, fill_value)\n", "        if fill_value == 0:\n            return self.value * self.weight\n        return self.value.masked_fill(self.weight == 0, fill_value)\n", "C06.R1"),
     V("wsum-unfilled", W, "        weighted_values = weight * self.filled(0)\n", "        weighted_values = weight * self.value\n", "C06.R1"),
     V("weighted-value-unfilled", W, "        return self.weight * self.filled(0)\n", "        return self.weight * self.value\n", "C06.R1"),
     V("neg-drops-weight", W, "        return WeightedTensor(-1 * self.value, self.weight)", "        return WeightedTensor(-1 * self.value)", "C06.R1"),
